@@ -263,7 +263,7 @@ def _simplify_doc():
     gb = El("g", {"fill": "green", "data-name": "layer"}, [p5], name="gb")
     rect = El("rect", {"x": "1", "width": "2", "height": "3", "fill": "url(#g1)", "transform": "tR", "id": "R"}, name="R")
     p6 = El("path", {"d": pd(("M", (7, 7)), ("L", (8, 8))), "fill": "url(#g2)", "id": "p6"}, name="p6")
-    root = El("svg", {"viewBox": "0 0 10 10", "fill": "red", "stroke-linecap": "round"}, [defs, ga, gb, rect, p6], name="root")
+    root = El("svg", {"viewBox": "0 0 10 10", "fill": "red", "stroke-linecap": "round", "overflow": "visible"}, [defs, ga, gb, rect, p6], name="root")
     return root
 
 
@@ -287,17 +287,20 @@ def _simplify_doc3():
     a gradient used only from inside a kept group; a gradient used by an untransformed shape; a template chain."""
     def grad(i, **kw):
         return El("linearGradient", dict({"id": i}, **kw), [El("stop", {"offset": "0"}), El("stop", {"offset": "1"})], name=i)
-    tmpl = El("linearGradient", {"id": "t0", "x2": "0.5", "gradientUnits": "userSpaceOnUse"}, [El("stop", {"offset": "0.3"})], name="t0")
+    tt = El("linearGradient", {"id": "tt", "y2": "0.9", "x2": "0.8", "spreadMethod": "reflect"}, [El("stop", {"offset": "0.3", "id": "tts"})], name="tt")
+    tmpl = El("linearGradient", {"id": "t0", "x2": "0.5", "gradientUnits": "userSpaceOnUse", "{http://www.w3.org/1999/xlink}href": "#tt"}, [], name="t0")
     h1 = El("linearGradient", {"id": "h1", "{http://www.w3.org/1999/xlink}href": "#t0", "x1": "0.1"}, [], name="h1")
-    defs = El("defs", {}, [grad("g1"), grad("g3"), grad("g4"), tmpl, h1], name="defs")
+    h2 = El("linearGradient", {"id": "h2", "{http://www.w3.org/1999/xlink}href": "#tt", "x2": "0.6"}, [El("stop", {"offset": "0.7"}), El("stop", {"offset": "1"})], name="h2")
+    defs = El("defs", {}, [grad("g1"), grad("g3"), grad("g4"), tt, tmpl, h1, h2], name="defs")
     ra = El("rect", {"x": "1", "width": "2", "height": "3", "fill": "url(#g1)", "transform": "tR", "id": "Ra"}, name="Ra")
     rb = El("rect", {"x": "5", "width": "4", "height": "1", "fill": "url(#g1)", "transform": "tR", "id": "Rb"}, name="Rb")
     k1 = El("path", {"d": pd(("M", (1, 1)), ("L", (2, 2))), "fill": "url(#g3)", "id": "k1"}, name="k1")
-    k2 = El("path", {"d": pd(("M", (3, 3)), ("L", (4, 4))), "id": "k2"}, name="k2")
+    k2 = El("path", {"d": pd(("M", (3, 3)), ("L", (4, 4))), "id": "g1_1"}, name="k2")  # an id a gradient clone would like to take
     gk = El("g", {"opacity": "0.25", "id": "gk"}, [k1, k2], name="gk")
-    u = El("path", {"d": pd(("M", (5, 5)), ("L", (6, 6))), "fill": "url(#g4)", "id": "u"}, name="u")
+    u = El("path", {"d": pd(("M", (5, 5)), ("L", (6, 6))), "fill": "url(#g4)", "id": "u", "opacity": "0.5"}, name="u")
     w = El("path", {"d": pd(("M", (7, 7)), ("L", (8, 8))), "fill": "url(#h1)", "id": "w"}, name="w")
-    root = El("svg", {"viewBox": "0 0 10 10"}, [defs, ra, rb, gk, u, w], name="root")
+    w2 = El("path", {"d": pd(("M", (7, 9)), ("L", (8, 9))), "fill": "url(#h2)", "id": "w2"}, name="w2")
+    root = El("svg", {"viewBox": "0 0 10 10"}, [defs, ra, rb, gk, u, w, w2], name="root")
     return root
 
 
@@ -413,14 +416,16 @@ def _grammar_facts(root, P):
             P("structure", f"a <{n.local()}> element survives")
         if n.local() in ("linearGradient", "radialGradient") and (n.parent is None or n.parent.local() != "defs"):
             P("structure", "a gradient lives outside defs")
-    inheritable = {"fill", "stroke", "stroke-linecap", "fill-rule", "clip-rule", "opacity", "display", "stroke-width", "style"}
+    inheritable = {"fill", "stroke", "stroke-linecap", "fill-rule", "clip-rule", "opacity", "display", "stroke-width", "style", "overflow", "color", "fill-opacity",
+                   "stroke-opacity", "stroke-linejoin", "stroke-miterlimit", "stroke-dasharray", "stroke-dashoffset", "clip-path", "transform"}
     left = sorted(inheritable & set(root.attrib))
     if left:
         P("structure", f"the root keeps inheritable presentation attributes {left}")
     for g in [n for n in els if n.local() == "g"]:
         n_ch = len([c for c in g.children if isinstance(c.tag, str)])
         if set(g.attrib) != {"opacity"} or n_ch < 2:
-            P("structure", f"a kept group has attributes {sorted(g.attrib)} and {n_ch} children (only opacity, at least two children allowed)")
+            kids_ids = [str(c.attrib.get("id", c.local())) for c in g.children if isinstance(c.tag, str)]
+            P("structure", f"a kept group has attributes {sorted(g.attrib)} and {n_ch} children {kids_ids} (only opacity, at least two children allowed)")
     for n in _paths_under(root):
         for a in n.attrib:
             if a.startswith("stroke") and str(n.attrib[a]) != _STROKE_DEFAULTS.get(a):
@@ -628,12 +633,26 @@ def _check_doc3(root, P):
         if str(shapes["w"].attrib.get("fill")) != "url(#h1)" or h1 is None:
             P("refs", "gradient h1 (which uses a template) was lost")
         else:
-            if str(h1.attrib.get("x1")) not in ("0.1",) or str(h1.attrib.get("x2")) not in ("0.5",) or h1.attrib.get("gradientUnits") != "userSpaceOnUse":
-                P("gradient", f"template resolution: h1 has x1={h1.attrib.get('x1')} x2={h1.attrib.get('x2')} units={h1.attrib.get('gradientUnits')}; own x1=0.1 wins, x2=0.5 and userSpaceOnUse come from the template")
-            if len([c for c in h1.children if c.local() == "stop"]) != 1:
-                P("gradient", "template resolution: a gradient without stops must take the template's stops")
-    if "t0" in grads:
-        P("refs", "the template t0 stays in defs although no shape references it")
+            got = {k: str(h1.attrib.get(k)) for k in ("x1", "x2", "y2", "gradientUnits", "spreadMethod")}
+            want = {"x1": "0.1", "x2": "0.5", "y2": "0.9", "gradientUnits": "userSpaceOnUse", "spreadMethod": "reflect"}
+            if got != want:
+                P("gradient", f"template resolution through a chain h1 -> t0 -> tt gives {got}; own attributes win, missing ones come from the nearest template that has them: {want}")
+            stops = [c for c in h1.children if c.local() == "stop"]
+            if len(stops) != 1 or str(stops[0].attrib.get("offset")) != "0.3":
+                P("gradient", "template resolution: a gradient without stops must take the stops of the nearest template that has some")
+            if any("id" in c.attrib for c in stops):
+                P("refs", "stops copied from a template keep their ids")
+    if "w2" in shapes:
+        h2 = grads.get("h2")
+        if h2 is None:
+            P("refs", "gradient h2 (own stops, template for attributes) was lost")
+        else:
+            got = {k: str(h2.attrib.get(k)) for k in ("x2", "y2", "spreadMethod")}
+            if got != {"x2": "0.6", "y2": "0.9", "spreadMethod": "reflect"} or [str(c.attrib.get("offset")) for c in h2.children] != ["0.7", "1"]:
+                P("gradient", f"template resolution: h2 ends with {got} and stops {[str(c.attrib.get('offset')) for c in h2.children]}; its own x2 and its own two stops must win over the template's")
+    for t in ("t0", "tt"):
+        if t in grads:
+            P("refs", f"the template {t} stays in defs although no shape references it")
 
 
 _SIMPLIFY_SCENARIOS = [("scenario 1 (groups, clip, stroke, transformed gradient)", _simplify_doc, _check_doc1),
@@ -951,30 +970,555 @@ def _nested_doc():
     return root
 
 
-def check_nested_svg(repo: Repo, rep: Report, rule: str):
+def check_nested_svg(repo: Repo, rep: Report, rule):
+    """rule: a rule id (render list and ids) or {'render': rid, 'ids': rid}"""
+    rules = rule if isinstance(rule, dict) else {"render": rule, "ids": rule}
     svg = repo["svg"]
     F = "svg.SVG._unnest_svg"
     rep.saw(F, "svg.SVG.resolve_nested_svgs", "svg.SVG._iter_nested_svgs", "svg.SVG._swap_elements")
     fn = svg.func("SVG._unnest_svg")
     want = ref_render(_nested_doc(), viewport=(100, 100))
     outs = ok_outcomes(run(repo, "SVG.resolve_nested_svgs", lambda: ([make_svg(_nested_doc())], {"inplace": True})), F)
-    probs = []
+    probs, idp = [], []
     for o in outs:
         if o.raised:
             probs.append(f"resolve_nested_svgs raises {o.raised} ({o.raise_msg}) on the schematic document")
+            idp.append(probs[-1])
             continue
         root = o.args[0].f["svg_root"]
+        ids = [str(n.attrib["id"]) for n in root.subtree() if isinstance(n.tag, str) and "id" in n.attrib]
+        if len(ids) != len(set(ids)):
+            idp.append(f"duplicate ids after un-nesting: {sorted(i for i in set(ids) if ids.count(i) > 1)}")
+            continue  # references are ambiguous: the render list cannot be judged
         if [n for n in root.subtree() if isinstance(n.tag, str) and n.local() == "svg" and n is not root]:
             probs.append("a nested <svg> remains")
             continue
         d = _diff_render(ref_render(root, viewport=(100, 100)), want)
         if d:
             probs.append(d)
-        ids = [str(n.attrib["id"]) for n in root.subtree() if isinstance(n.tag, str) and "id" in n.attrib]
-        if len(ids) != len(set(ids)):
-            probs.append(f"duplicate ids after un-nesting: {sorted(i for i in set(ids) if ids.count(i) > 1)}")
+    if "ids" in rules:
+        if idp:
+            rep.fail(rules["ids"], F, "ids generated for viewport clips", f"{idp[0]}", svg, fn)
+        else:
+            rep.ok(rules["ids"], F + " [ids]", "generated viewport clip ids are unique (nested viewports, siblings)", True)
+    if "render" not in rules:
+        return
+    rule = rules["render"]
     if probs:
         rep.fail(rule, F, "nested svg viewports on the schematic document", f"{len(probs)} deviations; first: {probs[0]}", svg, fn)
-    else:
+    elif not idp:
         rep.ok(rule, F, "4 nested svgs (viewBox + preserveAspectRatio + transform, nested without size, overflow visible, plain viewport): render list equals the SVG viewport model "
                         "(viewBox mapped onto the viewport first, then the element's transform; default size = enclosing viewBox extent; clip to the viewport unless visible; order kept)", True)
+
+
+# =========================================================================================== gradient translation
+def check_gradient_translation(repo: Repo, rep: Report, rule: str):
+    """_apply_gradient_translation on concrete gradients: afterwards the gradientTransform has no translation, and the
+    gradient maps every point as before: M(p) = M'(p') for the moved points p' (x1,y1),(x2,y2) / (cx,cy),(fx,fy);
+    lengths (r, fr) and everything else are untouched; values are kept to at least 6 decimals."""
+    from sa.dom import install_dom
+    from sa.pathsem import install_path_hooks
+    from sa.sym import explore, method_of, is_num, to_rf
+    from sa.machine import Linked
+    svg = repo["svg"]
+    F = "svg.SVG._apply_gradient_translation"
+    rep.saw(F, "svg_transform.Affine2D.decompose_translation", "svg.to_element")
+    fn = method_of(repo, "svg", "SVG", "_apply_gradient_translation")
+    cases = [
+        ("linearGradient", {"x1": "0.1", "y1": "0.2", "x2": "0.7", "y2": "0.9", "gradientUnits": "userSpaceOnUse"}, "matrix(2 0 0 4 6 8)"),
+        ("linearGradient", {"x1": "1", "y1": "2", "x2": "5", "y2": "2", "gradientUnits": "userSpaceOnUse"}, "matrix(3 1 -1 3 1 1)"),
+        ("linearGradient", {"x1": "1", "y1": "2", "x2": "5", "y2": "2", "gradientUnits": "userSpaceOnUse"}, "matrix(2 0 0 2 0 0)"),
+        ("linearGradient", {"x1": "0", "y1": "0", "x2": "1", "y2": "0"}, "translate(5 7)"),
+        ("radialGradient", {"cx": "3", "cy": "4", "r": "5", "fx": "2", "fy": "1", "fr": "0.5", "gradientUnits": "userSpaceOnUse"}, "matrix(2 0 0 4 6 8)"),
+        ("radialGradient", {"cx": "3", "cy": "4", "r": "5", "gradientUnits": "userSpaceOnUse"}, "matrix(0 3 -3 0 7 1)"),
+    ]
+    probs = []
+    for tag, attrs, gt in cases:
+        def build(tag=tag, attrs=attrs, gt=gt):
+            el = El(tag, dict(attrs, id="g", gradientTransform=gt), [El("stop", {"offset": "0"})], name="grad")
+            root = El("svg", {"viewBox": "0 0 10 10"}, [El("defs", {}, [el])], name="root")
+            return ([Rec(ClassRef("svg", "SVG"), {"svg_root": root, "elements": []}, True), el], {})
+
+        def setup(it):
+            install_dom(it)
+            install_path_hooks(it)
+            it.hooks[("svg_meta", "_LinkedDefault")] = lambda i, a, k: Linked(a[0])
+
+        outs = explore(repo, fn, [], fresh_args=build, setup=setup, max_paths=64)
+        for o in outs:
+            if o.undecided:
+                raise AnalysisError(f"{F}: abstract machine cannot interpret this code: {o.undecided}")
+            case = f"<{tag} {attrs} gradientTransform='{gt}'>"
+            if o.raised:
+                probs.append(f"{case}: raises {o.raised} ({o.raise_msg})")
+                continue
+            el = o.args[1]
+            import re as _re
+            m = [Fraction(x) for x in _re.findall(r"-?[\d.]+(?:e-?\d+)?", gt)]
+            M = (m + [0] * 6)[:6] if gt.startswith("matrix") else [1, 0, 0, 1, m[0], m[1]]
+            a, b, c, d, e, f = (Fraction(x) for x in M)
+            new_gt = str(el.attrib.get("gradientTransform", "matrix(1 0 0 1 0 0)"))
+            nm = [Fraction(x) for x in _re.findall(r"-?[\d.]+(?:e-?\d+)?", new_gt)]
+            if new_gt.startswith("translate"):
+                probs.append(f"{case}: gradientTransform still has a translation: {new_gt}")
+                continue
+            na, nb, nc, nd_, ne, nf = (nm + [0] * 6)[:6] if new_gt.startswith("matrix") else (1, 0, 0, 1, 0, 0)
+            if ne != 0 or nf != 0:
+                probs.append(f"{case}: gradientTransform still has a translation: {new_gt}")
+            pairs = (("x1", "y1"), ("x2", "y2")) if tag == "linearGradient" else (("cx", "cy"), ("fx", "fy"))
+            dflt = {"x1": 0, "y1": 0, "x2": 1, "y2": 0, "cx": Fraction(1, 2), "cy": Fraction(1, 2), "r": Fraction(1, 2), "fr": 0}
+            def val(src, k):
+                if k in src:
+                    return Fraction(str(src[k]))
+                if k == "fx":
+                    return val(src, "cx")
+                if k == "fy":
+                    return val(src, "cy")
+                return Fraction(dflt[k])
+            tol = Fraction(1, 10 ** 5)
+            for xk, yk in pairs:
+                x0, y0 = val(attrs, xk), val(attrs, yk)
+                x1, y1 = val(el.attrib, xk), val(el.attrib, yk)
+                before = (a * x0 + c * y0 + e, b * x0 + d * y0 + f)
+                after = (na * x1 + nc * y1 + ne, nb * x1 + nd_ * y1 + nf)
+                scale = max(abs(a), abs(b), abs(c), abs(d), 1)
+                if abs(before[0] - after[0]) > tol * scale or abs(before[1] - after[1]) > tol * scale:
+                    probs.append(f"{case}: point ({xk},{yk}) = ({x0},{y0}) was mapped to {tuple(map(float, before))}; after folding the translation ({x1},{y1}) is mapped to {tuple(map(float, after))}")
+            for k in ("r", "fr"):
+                if tag == "radialGradient" and val(attrs, k) != val(el.attrib, k):
+                    probs.append(f"{case}: the length {k} changed from {val(attrs, k)} to {val(el.attrib, k)} (lengths are not translated)")
+            if (na, nb, nc, nd_) != (a, b, c, d):
+                probs.append(f"{case}: the linear part changed from {(a, b, c, d)} to {(na, nb, nc, nd_)}")
+            if str(el.attrib.get("id")) != "g" or len(el.children) != 1:
+                probs.append(f"{case}: id or stops were lost")
+            if "gradientUnits" in attrs and str(el.attrib.get("gradientUnits")) != attrs["gradientUnits"]:
+                probs.append(f"{case}: gradientUnits changed")
+    if probs:
+        rep.fail(rule, F, "folding the translation of gradientTransform into the coordinates", f"{len(probs)} deviations; first: {probs[0]}", svg, svg.func("SVG._apply_gradient_translation"))
+    else:
+        rep.ok(rule, F, f"{len(cases)} gradients (linear/radial, scaling, rotation, pure translation, no translation): translation removed, every point-valued pair mapped as before within 1e-5, lengths and linear part unchanged", True)
+
+
+# =========================================================================================== checkpicosvg (the gate)
+def _gate_good():
+    def stop(o, **kw):
+        return El("stop", dict({"offset": o}, **kw))
+    defs = El("defs", {}, [El("linearGradient", {"id": "g"}, [stop("0"), stop("1")]), El("radialGradient", {"id": "r"}, [stop("0")])], name="defs")
+    inner = El("g", {"opacity": "0.5"}, [El("path", {"d": pd(("M", (3, 3)))}), El("path", {"d": pd(("M", (4, 4)))})])
+    root = El("svg", {"viewBox": "0 0 10 10"}, [defs, El("path", {"id": "p1", "d": pd(("M", (1, 1))), "fill": "url(#g)"}),
+                                              El("g", {"opacity": "0.3"}, [El("path", {"id": "p2", "d": pd(("M", (2, 2)))}), inner])], name="root")
+    return root
+
+
+def _gate_cases():
+    """(title, mutate(root) -> expected error substrings (all must be reported), allow_text)"""
+    def top(root, el, idx=None):
+        root._append(el, idx)
+
+    cases = []
+    cases.append(("a basic shape at top level", lambda r: (top(r, El("rect", {"width": "1", "height": "1"})), ["BadElement: /svg[0]/rect[0]"])[1], False))
+    cases.append(("a <use>", lambda r: (top(r, El("use", {})), ["BadElement: /svg[0]/use[0]"])[1], False))
+    cases.append(("a nested <svg>", lambda r: (top(r, El("svg", {}, [El("path", {"d": pd(("M", (0, 0)))})])), ["BadElement: /svg[0]/svg[0]"])[1], False))
+    cases.append(("a clipPath in defs", lambda r: (r.children[0]._append(El("clipPath", {"id": "c"}, [El("path", {"d": pd(("M", (0, 0)))})])), ["BadElement: /svg[0]/defs[0]/clipPath[0]"])[1], False))
+    cases.append(("a path in defs", lambda r: (r.children[0]._append(El("path", {"d": pd(("M", (0, 0)))})), ["BadElement: /svg[0]/defs[0]/path[0]"])[1], False))
+    cases.append(("a group in defs", lambda r: (r.children[0]._append(El("g", {}, [El("path", {"d": pd(("M", (0, 0)))})])), ["BadElement: /svg[0]/defs[0]/g[0]"])[1], False))
+    cases.append(("a second defs", lambda r: (top(r, El("defs", {})), ["BadElement: /svg[0]/defs[1]"])[1], False))
+    cases.append(("a gradient outside defs", lambda r: (top(r, El("linearGradient", {"id": "z"})), ["BadElement: /svg[0]/linearGradient[0]"])[1], False))
+    cases.append(("a stop outside a gradient", lambda r: (r.children[0]._append(El("stop", {"offset": "0"})), ["BadElement: /svg[0]/defs[0]/stop[0]"])[1], False))
+    cases.append(("a path nested in a path", lambda r: (r.children[1]._append(El("rect", {})), ["BadElement: /svg[0]/path[0]/rect[0]"])[1], False))
+    cases.append(("text without allow_text", lambda r: (top(r, El("text", {}, [El("tspan", {})])), ["BadElement: /svg[0]/text[0]"])[1], False))
+    cases.append(("text with allow_text", lambda r: (top(r, El("text", {}, [El("tspan", {})])), [])[1], True))
+    cases.append(("a gradient inside text with allow_text", lambda r: (top(r, El("text", {}, [El("linearGradient", {"id": "q"})])), ["BadElement: /svg[0]/text[0]/linearGradient[0]"])[1], True))
+    cases.append(("no defs", lambda r: (r.children[0]._detach(), ["MissingElement: /svg[0]/defs[0]"])[1], False))
+    cases.append(("two paths with one id", lambda r: (r.children[2].children[0].attrib.__setitem__("id", "p1"), ['reuses id="p1"'])[1], False))
+    cases.append(("a path with the id of a gradient", lambda r: (r.children[1].attrib.__setitem__("id", "g"), ['reuses id="g"'])[1], False))
+    cases.append(("two stops with one id", lambda r: ([s.attrib.__setitem__("id", "s") for s in r.children[0].children[0].children], ['reuses id="s"'])[1], False))
+    cases.append(("a stop with the id of a path", lambda r: (r.children[0].children[1].children[0].attrib.__setitem__("id", "p2"), ['reuses id="p2"'])[1], False))
+    return cases
+
+
+def check_gate(repo: Repo, rep: Report, rules: Dict[str, str]):
+    """rules: 'accepts' (a conforming document has no violations), 'rejects' (every structural defect is reported at its element),
+    'ids' (every reused id is reported), 'drop' (drop_unsupported removes exactly the offending subtrees and reports nothing for them)"""
+    svg = repo["svg"]
+    F = "svg.SVG.checkpicosvg"
+    rep.saw(F)
+    fn = svg.func("SVG.checkpicosvg")
+    probs = {k: [] for k in ("accepts", "rejects", "ids", "drop", "pure")}
+
+    def run_gate(root_builder, **kw):
+        before = _struct(root_builder())
+        outs = ok_outcomes(run(repo, "SVG.checkpicosvg", lambda: ([make_svg(root_builder())], dict(kw))), F)
+        res = []
+        for o in outs:
+            if o.raised:
+                res.append((None, f"raises {o.raised} ({o.raise_msg})", None))
+            else:
+                res.append(([str(e) for e in o.value], None, o.args[0].f["svg_root"]))
+                if not kw.get("drop_unsupported") and _struct(o.args[0].f["svg_root"]) != before:
+                    probs["pure"].append("checking a document modifies it (without drop_unsupported): " + "; ".join(_struct_diffs(before, _struct(o.args[0].f["svg_root"]))[:2]))
+        return res
+
+    for errs, exc, _ in run_gate(_gate_good):
+        if exc or errs:
+            probs["accepts"].append(f"a conforming document is reported as {exc or errs}")
+    for errs, exc, _ in run_gate(_gate_good, allow_text=True, drop_unsupported=True):
+        if exc or errs:
+            probs["accepts"].append(f"a conforming document is reported as {exc or errs} with allow_text/drop_unsupported")
+
+    def loose():
+        # structurally allowed content the gate has no business tidying: empty / single-child groups, empty defs entries
+        r = _gate_good()
+        r._append(El("g", {}))
+        r._append(El("g", {"opacity": "0.5"}, [El("path", {"d": pd(("M", (7, 7)))})]))
+        r.children[0]._append(El("linearGradient", {"id": "unused"}))
+        return r
+    run_gate(loose)
+    n = 0
+    for title, mutate, allow_text in _gate_cases():
+        def build(mutate=mutate):
+            r = _gate_good()
+            mutate(r)
+            return r
+        want = mutate(_gate_good())
+        kind = "ids" if any("reuses" in w for w in want) else "rejects"
+        for errs, exc, _ in run_gate(build, allow_text=allow_text):
+            n += 1
+            if exc:
+                probs[kind].append(f"{title}: {exc}")
+                continue
+            missing = [w for w in want if not any(w in e for e in errs)]
+            if missing:
+                probs[kind].append(f"{title}: not reported (expected {missing}; reported {errs})")
+            if not want and errs:
+                probs["accepts"].append(f"{title}: reported as {errs}")
+            extra = [e for e in errs if not any(w in e for w in want)]
+            if want and extra:
+                probs[kind].append(f"{title}: additionally reports {extra}")
+        if kind == "rejects" and want and want[0].startswith("BadElement"):
+            bad_path = want[0].split(": ")[1]
+            for errs, exc, root in run_gate(build, allow_text=allow_text, drop_unsupported=True):
+                if exc:
+                    probs["drop"].append(f"{title}: drop_unsupported {exc}")
+                    continue
+                if any("BadElement" in e for e in errs):
+                    probs["drop"].append(f"{title}: still reported with drop_unsupported: {errs}")
+                left = [r[1] for r in _ref_traverse(root)]
+                if any(p == bad_path or p.startswith(bad_path + "/") for p in left):
+                    probs["drop"].append(f"{title}: the offending element survives drop_unsupported")
+                good = [r[1] for r in _ref_traverse(_gate_good())]
+                lost = [p for p in good if p not in left and not p.startswith(bad_path)]
+                if lost:
+                    probs["drop"].append(f"{title}: drop_unsupported also removed conforming elements {lost[:3]}")
+    what = {"accepts": "conforming documents pass", "rejects": "structural violations are reported at the offending element", "ids": "reused ids are reported", "drop": "drop_unsupported removes exactly the offending subtrees",
+            "pure": "the check leaves the document unchanged unless drop_unsupported is given"}
+    for k, rid in rules.items():
+        if probs[k]:
+            u = list(dict.fromkeys(probs[k]))
+            rep.fail(rid, F, what[k], f"{len(u)} deviations; first: {u[0]}", svg, fn)
+        else:
+            rep.ok(rid, F + f" [{k}]", f"{n} defective variants of a conforming document + the conforming one: {what[k]}", True)
+
+
+# =========================================================================================== whole pipeline
+def _pipeline_doc():
+    def stop(o):
+        return El("stop", {"offset": o})
+    pf = El("path", {"id": "pf", "d": pd(("M", (90, 2)), ("L", (93, 2)), ("L", (93, 3)), ("Z", ())), "fill": "orange"}, name="pf")
+    ps = El("path", {"id": "ps", "d": pd(("M", (90, 12)), ("L", (93, 12)), ("L", (93, 13)), ("Z", ())), "style": "fill:teal"}, name="ps")
+    defs = El("defs", {}, [El("linearGradient", {"id": "g1"}, [stop("0"), stop("1")]), El("linearGradient", {"id": "gz"}, [stop("0")]),
+                           El("clipPath", {"id": "c"}, [El("rect", {"width": "4", "height": "3"})]), pf, ps], name="defs")
+    p1 = El("path", {"id": "p1", "d": pd(("m", (Fraction("1.23456"), 1)), ("l", (2, 0)), ("v", (2,)), ("h", (-2,)), ("z", ()))}, name="p1")
+    z1 = El("path", {"id": "z1", "d": pd(("M", (50, 50)), ("L", (51, 51)))}, name="z1")
+    ga = El("g", {"opacity": "0.5", "id": "ga"}, [p1, z1], name="ga")
+    p2 = El("path", {"id": "p2", "d": pd(("M", (2, 2)), ("L", (3, 2)), ("L", (3, 3)), ("Z", ()))}, name="p2")
+    p3 = El("path", {"id": "p3", "d": pd(("M", (3, 3)), ("Q", (4, 4, 5, 3)), ("T", (7, 3)), ("Z", ())), "style": "fill:green"}, name="p3")
+    gb = El("g", {"opacity": "0.25", "id": "gb", "fill": "yellow"}, [p2, p3], name="gb")
+    r = El("rect", {"id": "r", "x": "10", "y": "10", "width": "4", "height": "5", "fill": "url(#g1)", "transform": "tR", "style": "fill-opacity:0.5"}, name="r")
+    u = El("use", {XLINK_HREF: "#p2", "x": "5", "style": "fill:purple"}, name="u")
+    z2 = El("path", {"id": "z2", "d": pd(("M", (60, 60)), ("L", (61, 61))), "fill": "url(#gz)"}, name="z2")
+    ev = El("path", {"id": "ev", "d": pd(("M", (20, 20)), ("L", (30, 20)), ("L", (30, 30)), ("Z", ())), "fill-rule": "evenodd"}, name="ev")
+    st = El("path", {"id": "st", "d": pd(("M", (40, 40)), ("L", (45, 40))), "stroke": "blue", "stroke-width": "2", "fill": "none"}, name="st")
+    cl = El("path", {"id": "cl", "d": pd(("M", (70, 70)), ("L", (75, 70)), ("L", (75, 75)), ("Z", ())), "clip-path": "url(#c)"}, name="cl")
+    nested = El("svg", {"x": "1", "y": "2", "width": "30", "height": "30", "viewBox": "0 0 60 60"}, [El("circle", {"id": "ci", "cx": "5", "cy": "5", "r": "2"}, name="ci")], name="nested")
+    hidden = El("g", {"display": "none"}, [El("path", {"id": "hid", "d": pd(("M", (80, 80)), ("L", (85, 80)), ("L", (85, 85)), ("Z", ()))})], name="hidden")
+    # (comments never reach the tree: the parser drops them, see the parser-flag rule of C14)
+    junk = [El(ETREE_PI), El("title", {}), El("metadata", {}), El("{http://example.com/ns}thing", {}), El("symbol", {}, [El("path", {"d": pd(("M", (0, 0)))})])]
+    gt = El("g", {"opacity": "0.5", "id": "gt"}, [El("title", {}), El("desc", {}), El("path", {"id": "pt", "d": pd(("M", (95, 50)), ("L", (97, 50)), ("L", (97, 52)), ("Z", ()))})], name="gt")
+    gc = El("g", {"opacity": "0.5", "id": "gc"}, [El("clipPath", {"id": "c9"}, [El("rect", {"width": "9", "height": "9"})]),
+                                                  El("path", {"id": "pc", "clip-path": "url(#c9)", "d": pd(("M", (95, 60)), ("L", (97, 60)), ("L", (97, 62)), ("Z", ()))})], name="gc")
+    po = El("path", {"id": "po", "opacity": N("oa"), "fill-opacity": N("ob"), "d": pd(("M", (95, 70)), ("L", (97, 70)), ("L", (97, 72)), ("Z", ()))}, name="po")
+    uf = El("use", {XLINK_HREF: "#pf", "style": "fill:purple;opacity:0.5"}, name="uf")
+    us = El("use", {XLINK_HREF: "#ps", "style": "fill:purple", "opacity": "0.5"}, name="us")
+    root = El("svg", {"viewBox": "0 0 100 100", "fill": "red", "{http://example.com/ns}attr": "x"}, junk + [defs, ga, gb, r, u, z2, ev, st, nested, cl, hidden, uf, us, gt, gc, po], name="root")
+    return root
+
+
+def _pipeline_area(g):
+    t = repr(g)
+    if "(50, 50)" in t or "(60, 60)" in t:
+        return 0
+    if "(40, 40)" in t and "stroke" not in t:
+        return 0
+    return 7
+
+
+def _struct(n):
+    """Structure of a tree without path geometry (which is opaque after the engine touched it)."""
+    if not isinstance(n.tag, str):
+        return ("#", repr(n.tag))
+    def val(k, v):
+        r = repr(v)
+        if k == "d" and "G(" in r:
+            return "<geometry>"
+        if "Aff[" in r or "mapx[" in r or "mapy[" in r or r.startswith("'affine:"):
+            return "<numbers derived from symbolic transforms>"
+        return r
+    at = tuple(sorted((k, val(k, v)) for k, v in n.attrib.items()))
+    return (n.local(), at, tuple(_struct(c) for c in n.children))
+
+
+_PIPE_CATS = ("grammar", "path-data", "rounding", "paint", "junk", "kept-group", "orphans", "fixpoint", "completes")
+
+
+def run_pipeline(repo: Repo, ndigits=3, passes=1, doc=None, **kw):
+    snaps = []
+
+    def body(it, a, k):
+        svg = a[0]
+        m = method_of(repo, "svg", "SVG", "topicosvg")
+        for i in range(passes):
+            it.call(m, [svg], dict(k))
+            snaps.append(_struct(svg.f["svg_root"]))
+        return svg
+
+    from sa.sym import method_of
+    snaps_holder = snaps
+    outs = ok_outcomes(run(repo, body, lambda: ([make_svg((doc or _pipeline_doc)())], dict({"inplace": True, "ndigits": ndigits}, **kw)), max_paths=64, area=_pipeline_area), "svg.SVG.topicosvg")
+    return outs, snaps_holder
+
+
+def _ops_of(g):
+    out = []
+    g = unseq(g)
+    while isinstance(g, GeomTok) and len(g.term) > 1:
+        out.append(g.term[0])
+        nxt = g.term[1]
+        if isinstance(nxt, tuple) and nxt and isinstance(nxt[0], GeomTok):
+            nxt = nxt[0]
+        g = unseq(nxt)
+    return out  # outermost first
+
+
+def check_pipeline(repo: Repo, rep: Report, rules: Dict[str, str]):
+    """topicosvg interpreted end to end on a schematic document that uses every supported feature.
+    rules: category -> rule id; categories: grammar, path-data, rounding, paint, junk, kept-group, orphans, fixpoint, completes"""
+    svg = repo["svg"]
+    F = "svg.SVG.topicosvg"
+    rep.saw(F)
+    fn = svg.func("SVG.topicosvg")
+    probs: Dict[str, List[str]] = {k: [] for k in _PIPE_CATS}
+    n_runs = 0
+    outs, snaps = run_pipeline(repo, ndigits=3, passes=2)
+    for o in outs:
+        n_runs += 1
+        if o.raised:
+            probs["fixpoint"].append(f"converting the converted schematic document again raises {o.raised} ({o.raise_msg})")
+        elif len(snaps) >= 2 and snaps[-1] != snaps[-2]:
+            for dmsg in _struct_diffs(snaps[-2], snaps[-1]):
+                probs["fixpoint"].append("a second conversion changes the document: " + dmsg)
+    for nd in (3, 0):
+        outs, _ = run_pipeline(repo, ndigits=nd, passes=1)
+        for o in outs:
+            n_runs += 1
+            if o.raised:
+                probs["completes"].append(f"ndigits={nd}: conversion of the schematic document raises {o.raised} ({o.raise_msg})")
+                continue
+            root = o.args[0].f["svg_root"]
+
+            def P(cat, msg, nd=nd):
+                # ndigits=0 also rounds opacities (0.5 -> 0): only the number format is judged on that run
+                if nd == 0 and cat not in ("path-data", "rounding"):
+                    return
+                probs[cat].append(f"ndigits={nd}: {msg}")
+
+            els = [n for n in root.subtree() if isinstance(n.tag, str)]
+            marks = [n for n in root.subtree() if not isinstance(n.tag, str)]
+            if marks:
+                P("junk", f"{len(marks)} comments / processing instructions survive")
+            for n in els:
+                if n.local() in ("title", "metadata", "desc", "symbol", "thing") or "example.com" in str(n.tag):
+                    P("junk", f"<{n.local()}> survives")
+                if any("example.com" in str(k) for k in n.attrib):
+                    P("junk", "a foreign-namespace attribute survives")
+                if n.local() in ("rect", "circle", "ellipse", "line", "polygon", "polyline", "use", "clipPath", "text") or (n.local() == "svg" and n is not root):
+                    P("grammar", f"<{n.local()} id={n.attrib.get('id')}> survives")
+                if any("href" in str(k) for k in n.attrib):
+                    P("grammar", f"an xlink reference survives on <{n.local()}>")
+                if str(n.attrib.get("fill-rule", "nonzero")) != "nonzero":
+                    P("grammar", f"{n.attrib.get('id')} keeps fill-rule evenodd")
+                if "style" in n.attrib or "display" in n.attrib:
+                    P("grammar", f"<{n.local()} id={n.attrib.get('id')}> keeps style/display")
+
+            def PG(cat, msg):
+                # group / orphan deviations of the structural facts are reported under their own categories
+                if "kept group" in msg:
+                    P("kept-group", msg)
+                elif "stays in defs although no shape references it" in msg:
+                    P("orphans", msg)
+                else:
+                    P("grammar" if cat in ("structure", "refs") else cat, msg)
+
+            _grammar_facts(root, PG)
+            shapes = {str(n.attrib.get("id", f"#{i}")): n for i, n in enumerate(_paths_under(root))}
+            for sid, n in shapes.items():
+                d = n.attrib.get("d")
+                g = _geom(n)
+                if isinstance(g, GeomTok):
+                    ops = _ops_of(g)
+                    if "absolute" not in ops:
+                        P("path-data", f"{sid}: geometry from the engine is not passed through absolute()")
+                    if "round" not in ops:
+                        P("rounding", f"{sid}: geometry from the engine is never rounded")
+                    else:
+                        later = [x for x in ops[:ops.index("round")] if x not in ("nonempty-subpaths",)]
+                        if later:
+                            P("rounding", f"{sid}: {later} run after the numbers were rounded: unrounded numbers reach the output")
+                        if "nonempty-subpaths" not in ops[:ops.index("round")]:
+                            P("rounding", f"{sid}: empty subpaths are not removed after rounding (a contour that collapses only when rounded survives the first pass and is dropped by the second)")
+                        gg = unseq(g)
+                        while isinstance(gg, GeomTok) and gg.term[0] != "round":
+                            gg = unseq(gg.term[1])
+                        if isinstance(gg, GeomTok) and gg.term[-1] != nd:
+                            P("rounding", f"{sid}: rounded to {gg.term[-1]} digits, {nd} requested")
+                elif isinstance(d, PathData):
+                    for c, a in d.cmds:
+                        if c not in ("M", "L", "C", "Q", "A", "Z"):
+                            P("path-data", f"{sid}: command {c} survives (only absolute M L C Q A Z allowed)")
+                        for v in a:
+                            fv = Fraction(str(v)) if not isinstance(v, (int, Fraction)) else Fraction(v)
+                            if fv != round(fv, nd):
+                                P("rounding", f"{sid}: number {v} is not rounded to {nd} digits")
+                elif d is not None:
+                    P("path-data", f"{sid}: path data is {d!r}")
+            if "p1" in shapes and isinstance(shapes["p1"].attrib.get("d"), PathData):
+                x0 = shapes["p1"].attrib["d"].cmds[0][1][0]
+                want = round(Fraction("1.23456"), nd)
+                if Fraction(str(x0)) != want:
+                    P("rounding", f"p1 starts at x={x0}; 1.23456 rounded to {nd} digits is {want}")
+            # paints (cascade): id -> (fill, opacity of the path itself)
+            want_paint = {"p1": ("red", "1"), "p2": ("yellow", "1"), "p3": ("green", "1"), "ev": ("red", "1"), "st": ("blue", "1"), "ci": ("red", "1"), "cl": ("red", "1"),
+                          "pt": ("red", "0.5"), "pc": ("red", "0.5")}
+            for sid, (fill, op) in want_paint.items():
+                if sid not in shapes:
+                    P("paint", f"{sid} vanished")
+                    continue
+                got = (str(shapes[sid].attrib.get("fill", "black")), str(shapes[sid].attrib.get("opacity", "1")))
+                if got != (fill, op):
+                    P("paint", f"{sid} is painted fill={got[0]} opacity={got[1]}; the cascade gives fill={fill} opacity={op}")
+            if "r" in shapes and (not str(shapes["r"].attrib.get("fill", "")).startswith("url(#g1") or str(shapes["r"].attrib.get("opacity", "1")) != "0.5"):
+                P("paint", f"r is painted fill={shapes['r'].attrib.get('fill')} opacity={shapes['r'].attrib.get('opacity', '1')}; the cascade gives the gradient and opacity 0.5 (from style fill-opacity)")
+            inst = [n for s, n in shapes.items() if s.startswith("#") and "translate(5,0)" in repr(_geom(n))]
+            if len(inst) != 1 or str(inst[0].attrib.get("fill")) != "purple":
+                P("paint", f"the <use style='fill:purple'> instance of p2 comes out as {[(str(n.attrib.get('fill'))) for n in inst]}; the target has no fill of its own and inherits purple from the use")
+            for marker, name, fill in (("M90,2 ", "the instance of pf (own fill attribute orange) under <use style='fill:purple;opacity:0.5'>", "orange"),
+                                       ("M90,12 ", "the instance of ps (own style fill:teal) under <use style='fill:purple' opacity='0.5'>", "teal")):
+                hit = [n for n in shapes.values() if marker in repr(n.attrib.get("d"))]
+                if len(hit) != 1 or (str(hit[0].attrib.get("fill")), str(hit[0].attrib.get("opacity", "1"))) != (fill, "0.5"):
+                    P("paint", f"{name} comes out as {[(str(n.attrib.get('fill')), str(n.attrib.get('opacity', '1'))) for n in hit]}; the element's own value wins over the inherited one: ({fill}, 0.5)")
+            if "po" in shapes:
+                opv = shapes["po"].attrib.get("opacity")
+                want_op = f"round(oa*ob, {nd})"
+                if repr(opv) != want_op or "fill-opacity" in shapes["po"].attrib:
+                    P("rounding" if "round" not in repr(opv) or repr(opv).count("round") > 1 else "paint",
+                      f"po (opacity oa, fill-opacity ob) comes out with opacity={opv!r} fill-opacity={shapes['po'].attrib.get('fill-opacity')}; the product, rounded once at the end, is {want_op}")
+            for gone in ("z1", "z2", "hid"):
+                if gone in shapes:
+                    P("paint", f"{gone} (no painted area / display:none) survives")
+    what = {"grammar": "result obeys the picosvg grammar", "path-data": "only absolute M L C Q A Z", "rounding": "every number rounded to ndigits, rounding is the last writer",
+            "paint": "paints follow the cascade; unpainted content is gone", "junk": "ignorable content removed", "kept-group": "kept groups have >= 2 children and only opacity",
+            "orphans": "no unreferenced gradient", "fixpoint": "second pass leaves structure and attributes unchanged", "completes": "conversion completes"}
+    for k, rid in rules.items():
+        if probs[k] and k in ("kept-group", "orphans", "fixpoint"):
+            # one finding per deviation, identified by the deviation itself (so that a recorded one does not hide another)
+            for msg in dict.fromkeys(m.split(": ", 1)[1] if m.startswith("ndigits=") else m for m in probs[k]):
+                rep.fail(rid, F, msg, f"{what[k]}: {msg}", svg, fn)
+        elif probs[k]:
+            u = list(dict.fromkeys(probs[k]))
+            rep.fail(rid, F, what[k], f"{len(u)} deviations; first: {u[0]}", svg, fn)
+        else:
+            rep.ok(rid, F + f" [{k}]", f"schematic document with every supported feature, ndigits 3 and 0, {n_runs} runs: {what[k]}", True)
+
+
+def _struct_diffs(a, b, path="/svg"):
+    """All differences between two structure snapshots (children are aligned by their id / tag)."""
+    out = []
+    if a[0] != b[0]:
+        return [f"{path}: <{a[0]}> became <{b[0]}>"]
+    if a[1] != b[1]:
+        da, db = dict(a[1]), dict(b[1])
+        ch = {k: (da.get(k), db.get(k)) for k in sorted(set(da) | set(db)) if da.get(k) != db.get(k)}
+        out.append(f"{path}: attributes changed: {ch}")
+    def keys(children):
+        seen, out_ = {}, []
+        for c in children:
+            if c[0] == "#":
+                out_.append(c)
+                continue
+            cid = dict(c[1]).get("id")
+            if cid is None:
+                n = seen.get(c[0], 0)
+                seen[c[0]] = n + 1
+                cid = f"#{n}"
+            out_.append((c[0], cid))
+        return out_
+    ka, kb = keys(a[2]), keys(b[2])
+    if ka != kb:
+        def nm(k):
+            return (k[0] + k[1]) if str(k[1]).startswith("#") else str(k[1]).strip("'")
+        gone, new = [nm(k) for k in ka if k not in kb], [nm(k) for k in kb if k not in ka]
+        if gone or new:
+            out.append(f"{path}: children {gone} disappear, {new} appear")
+        else:
+            out.append(f"{path}: children are reordered")
+    mb = dict(zip(kb, b[2]))
+    for k, c in zip(ka, a[2]):
+        if str(k[1]).startswith("#") and sum(1 for x in ka if x[0] == k[0] and str(x[1]).startswith("#")) != sum(1 for x in kb if x[0] == k[0] and str(x[1]).startswith("#")):
+            continue  # id-less children of this kind are not comparable by position once their number changed
+        if k in mb and mb[k] != c and c[0] != "#":
+            out += _struct_diffs(c, mb[k], f"{path}/{c[0]}[{k[1]}]")
+    return out
+
+
+def collect_gate_patterns(repo: Repo, allow_text: bool):
+    """The regular expressions checkpicosvg actually matches element paths against (observed while interpreting it)."""
+    from sa.sym import _re_fold, ConstRegex
+    seen = []
+
+    def extra(it):
+        def mk(method):
+            def f(i, a, k):
+                if isinstance(a[0], str):
+                    seen.append((method, a[0]))
+                return _re_fold(method, a, k)
+            return f
+        for m in ("match", "fullmatch", "search"):
+            it.external[f"re.{m}"] = mk(m)
+
+        class Rec_(ConstRegex):
+            def sym_getattr(self, it_, attr):
+                if attr in ("match", "fullmatch", "search"):
+                    seen.append((attr, self.args[0]))
+                return ConstRegex.sym_getattr(self, it_, attr)
+
+        it.external["re.compile"] = lambda i, a, k: Rec_(a)
+
+    from sa.sym import Interp
+    Interp._modcache = {}  # compiled patterns may live in module-level tables
+    def _doc():
+        r = _gate_good()
+        r._append(El("rect", {}))
+        return r
+    ok_outcomes(run(repo, "SVG.checkpicosvg", lambda: ([make_svg(_doc())], {"allow_text": allow_text}), setup_extra=extra), "svg.SVG.checkpicosvg")
+    Interp._modcache = {}
+    return list(dict.fromkeys(seen))
